@@ -50,6 +50,18 @@ def build_harness():
     return time.time() - t
 
 
+CLI_BIN = os.path.join(OUT, "target_cli", "release", "grex")
+
+
+def build_cli():
+    """the command-line binary, built from /repo's working tree into /verif/out (hooks off: it is the shipped tool)"""
+    sh(["cargo", "build", "--release", "--offline", "--manifest-path", "/repo/Cargo.toml",
+        "--target-dir", os.path.join(OUT, "target_cli")], timeout=1500, cwd=OUT)
+    if not os.path.exists(CLI_BIN):
+        raise ToolError("grex binary missing")
+    return CLI_BIN
+
+
 # ----------------------------------------------------------------------------------------------
 # TLC
 # ----------------------------------------------------------------------------------------------
@@ -131,7 +143,17 @@ def gen_traces(driver, tier, seed, tag, shards=None):
     shutil.rmtree(d, ignore_errors=True)
     os.makedirs(d, exist_ok=True)
     shards = shards or min(14, NPROC)
-    p = sh([GV, "gen", "--driver", driver, "--tier", tier, "--seed", str(seed), "--out", d, "--shards", str(shards)],
+    if driver.startswith("front:"):
+        kind = driver.split(":", 1)[1]
+        cmd = [GV, "gen-front", "--kind", kind, "--tier", tier, "--seed", str(seed), "--out", d, "--shards", str(shards)]
+        if kind == "cli":
+            cmd += ["--cli-bin", build_cli()]
+        if kind.startswith("replay="):
+            cmd = [GV, "gen-front", "--kind", "replay", "--plan", kind.split("=", 1)[1], "--out", d, "--shards", "1",
+                   "--cli-bin", build_cli()]
+        sh(cmd, timeout=3000)
+    else:
+        sh([GV, "gen", "--driver", driver, "--tier", tier, "--seed", str(seed), "--out", d, "--shards", str(shards)],
            timeout=3000)
     stats = json.loads(open(os.path.join(d, "stats.json")).read())
     return d, stats
@@ -160,7 +182,10 @@ def load_index(d):
     with open(p) as f:
         for line in f:
             o = json.loads(line)
-            idx[o["g"]] = o
+            if "g" in o:
+                idx[("g", o["g"])] = o
+            else:
+                idx[("h", o["h"])] = o
     return idx
 
 
@@ -244,33 +269,41 @@ def classify_trace_verdicts(res, known, verdicts, idx, driver):
     mine = [v for v in verdicts if res.prop in v.get("props", [])]
     tool = [v for v in verdicts if "TOOL" in v.get("props", [])]
     for v in tool[:20]:
-        g = idx.get(v["g"], {})
-        res.notes.append("model-fidelity note %s on %s" % (v["verdict"], json.dumps(g.get("tcs"), ensure_ascii=True)[:200]))
+        g = idx.get(("g", v["g"])) or idx.get(("h", v.get("h"))) or {}
+        res.notes.append("model-fidelity note %s on %s" % (v["verdict"], json.dumps(g.get("tcs", g.get("kind")), ensure_ascii=True)[:200]))
+    res.extra["model_fidelity_notes"] = res.extra.get("model_fidelity_notes", 0) + len(tool)
     seen = {}
     for v in mine:
         key = verdict_key(v)
-        g = idx.get(v["g"], {})
-        runs = {r["r"]: r for r in g.get("runs", [])}
-        rr = runs.get(v["r"], {})
+        front = v.get("g", 0) == 0 and "h" in v
+        g = (idx.get(("h", v["h"])) if front else idx.get(("g", v["g"]))) or {}
         k = match_known(known, res.prop, key)
         if k:
             t = "%s (key %s)" % (k["what"], k["key"])
             res.known_hits[t] = res.known_hits.get(t, 0) + g.get("mult", 1)
             continue
-        sig = (key, v["g"])
+        sig = (key, v.get("h") if front else v["g"])
         if sig in seen:
             continue
         seen[sig] = True
-        payload = {"property": res.prop, "verdict": v, "key": key, "driver": driver, "seed": res.seed,
-                   "plan": {"tcs": g.get("tcs"), "tag": g.get("tag", ""), "cps": True,
-                            "runs": [{"cfg": r["cfg"], "input": r["input"], "schedule": r.get("schedule")}
-                                     for r in g.get("runs", [])]},
-                   "run": rr}
-        path = write_replay(res.prop, v["verdict"], payload)
-        text = "%s on test cases %s settings %s -> %s" % (
-            key, json.dumps(g.get("tcs"), ensure_ascii=True)[:300],
-            json.dumps({k2: v2 for k2, v2 in rr.get("cfg", {}).items() if v2 is True or (v2 is not False and v2 != 1)}),
-            json.dumps(rr.get("out", rr.get("panic", "")), ensure_ascii=True)[:300])
+        if front:
+            payload = {"property": res.prop, "verdict": v, "key": key, "driver": driver, "seed": res.seed,
+                       "front": g}
+            path = write_replay(res.prop, v["verdict"], payload)
+            text = "%s (step %s) in scenario %s" % (key, v.get("k"), json.dumps(g, ensure_ascii=True)[:600])
+        else:
+            runs = {r["r"]: r for r in g.get("runs", [])}
+            rr = runs.get(v["r"], {})
+            payload = {"property": res.prop, "verdict": v, "key": key, "driver": driver, "seed": res.seed,
+                       "plan": {"tcs": g.get("tcs"), "tag": g.get("tag", ""), "cps": True,
+                                "runs": [{"cfg": r["cfg"], "input": r["input"], "schedule": r.get("schedule")}
+                                         for r in g.get("runs", [])]},
+                       "run": rr}
+            path = write_replay(res.prop, v["verdict"], payload)
+            text = "%s on test cases %s settings %s -> %s" % (
+                key, json.dumps(g.get("tcs"), ensure_ascii=True)[:300],
+                json.dumps({k2: v2 for k2, v2 in rr.get("cfg", {}).items() if v2 is True or (v2 is not False and v2 != 1)}),
+                json.dumps(rr.get("out", rr.get("panic", "")), ensure_ascii=True)[:300])
         res.add_violation(key, path, text)
 
 
@@ -301,9 +334,12 @@ def run_driver(res, known, driver, tier, seed):
     if len(res.samples) < 6:
         for g in sorted(idx)[:2]:
             o = idx[g]
-            res.samples.append({"driver": driver, "test_cases": o["tcs"][:6],
-                                "runs": [{"settings": {k: v for k, v in r["cfg"].items() if v not in (False, 1)},
-                                          "out": r.get("out", r.get("panic"))} for r in o["runs"][:3]]})
+            if g[0] == "g":
+                res.samples.append({"driver": driver, "test_cases": o["tcs"][:6],
+                                    "runs": [{"settings": {k: v for k, v in r["cfg"].items() if v is True or (v is not False and v != 1)},
+                                              "out": r.get("out", r.get("panic"))} for r in o["runs"][:3]]})
+            else:
+                res.samples.append({"driver": driver, "scenario": json.loads(json.dumps(o)[:1500] + '"}') if False else {k: (v if len(json.dumps(v)) < 400 else "...") for k, v in o.items()}})
     if not os.environ.get("VERIF_KEEP"):
         shutil.rmtree(d, ignore_errors=True)
     return stats, agg
